@@ -87,3 +87,23 @@ Example c05_partial_writes_history :
               OFlush [WBlock; WBlock; WBlock; WBlock; WBlock]; OFlush [WAccept 1; WIntr; WAccept 100]] in
   os_wire (ob_run ops) = bs "+OK" ++ [13; 10] ++ bs ":1" ++ [13; 10] /\ ob_has_pending (os_buf (ob_run ops)) = false.
 Proof. exact partial_history. Qed.
+
+(** "... no matter how the request bytes are split into TCP segments", at the level of the
+    whole connection: reads that do not end the connection (QUIT and a protocol violation end
+    it after the read they arrive in) compose - the same output bytes, parser remainder, server
+    state and closing decision as one read of the concatenation, for every cut of every byte
+    stream, complete frames or not. *)
+Theorem c05_reads_are_segmentation_independent :
+  forall now c chunks s buf, chunks <> [] -> opens now s c buf chunks = true ->
+  conn_feed now s c buf chunks [] = conn_feed now s c buf [concat chunks] [].
+Proof. exact conn_feed_concat. Qed.
+Example c05_segmentation_example :
+  let s0 := connect (init_server None) 1 in
+  let whole := bs "*3" ++ crlf ++ bs "$3" ++ crlf ++ bs "SET" ++ crlf ++ bs "$1" ++ crlf ++ bs "k" ++ crlf ++
+               bs "$2" ++ crlf ++ [13; 10] ++ crlf ++ bs "*2" ++ crlf ++ bs "$3" ++ crlf ++ bs "GET" ++ crlf ++
+               bs "$1" ++ crlf ++ bs "k" ++ crlf in
+  let cut := [firstn 7 whole; firstn 20 (skipn 7 whole); skipn 27 whole] in
+  opens 0 s0 1 [] cut = true /\ concat cut = whole /\
+  conn_feed 0 s0 1 [] cut [] = conn_feed 0 s0 1 [] [whole] [] /\
+  fst (decode_out (fst (fst (fst (conn_feed 0 s0 1 [] cut []))))) = [FSimple (bs "OK"); FBulk [13; 10]].
+Proof. vm_compute. repeat split; reflexivity. Qed.
